@@ -27,6 +27,11 @@ Cases:
         {"new":"frame","backing":..,"rows":V,"names":[..]}      DataFrame(rows=<container>, schema=names)
         {"on":i,"make":V}                                       <class i>(V)   (V a dict, tuple or list)
         {"on":i,"op":OP}                                        a dfseq call on frame i (append entry may be a dict)
+  {"k":"pydef","rows":V,"cols":V}   orso.row.extract_columns(rows, cols) - the plain-Python definition itself; when the rows are rectangular tuples and
+        every requested column is an int32-representable int/bool the same child also calls collect_cython(list(rows), int32(cols)) ("native")
+  Round 4: a column entry of a df / dfseq / sess collect is an int, a name, or {"v": V} for any other object (float, bool, Decimal, bytes, None, numpy scalar,
+  int subclass ...).  New value tags: ["dec",text] Decimal | ["frac",n,d] Fraction | ["npf",dtype,hex] / ["npi",dtype,n] / ["npb",bool] numpy scalars
+  | ["isub",n] int subclass | ["cx",re,im] complex | ["D",[[k,v]..]] OrderedDict | ["DD",[[k,v]..]] defaultdict(int) | ["AS",dtype,shape,[v..]] ndarray subclass.
   A collect / getitem OP may carry "scribble": true - after the result was recorded the harness overwrites the returned array in place.
 Observation: {"ok": ...} | {"exc": class name} | {"died": wait status, "reproduced": bool}."""
 import itertools
@@ -52,7 +57,9 @@ LEVEL_TEXT = ("Machine-checked Coq theorems over an executable model of collect_
               "reading history on rectangular rows is the plain definition. DataFrame.collect's argument conversion is modelled (int32 index vector and C-int limit: OverflowError "
               "outside the range, so an index outside 0..width-1 never yields a result however far outside it is), and several row classes and frames alive in one process are "
               "modelled as a heap of objects with a proved locality theorem (what an object returns depends only on its own definition and the actions addressed to it; an "
-              "ordinary row class and DataFrame.append turn a dict into the value-or-None of the object's own fields in order). The model is tied "
+              "ordinary row class and DataFrame.append turn a dict into the value-or-None of the object's own fields in order). The plain-Python definition orso.row.extract_columns "
+              "is modelled as written (per-request output lists filled row by row, Python subscription with wrap-around, KeyError / TypeError paths) and proved to be the "
+              "column-major definition with one list per requested column, equal to the compiled collector's model on rectangular rows with in-range indexes. The model is tied "
               "to the shipped compiled .so by running the real helpers (and the callers DataFrame.collect / the display width call) in sacrificial processes on the "
               "exhaustive small scope and on random larger inputs and evaluating the model on the same inputs inside Coq; a literal property oracle and the observed "
               "exit status of every child supply replayable failing inputs.")
@@ -66,16 +73,20 @@ LEVEL_NOTE = ("Memory safety of the compiled object is observed (child exit stat
 DESIGN_REF = "DESIGN.md section 8, C10"
 COQ_IMPORTS = "From Orso Require Import Model.C10."
 COQ_CHECKS = {"collect": "c10_collect_check", "df": "c10_df_check", "extract": "c10_extract_check", "width": "c10_width_check",
-              "dfseq": "c10_dfseq_check", "sess": "c10_sess_check"}
+              "dfseq": "c10_dfseq_check", "sess": "c10_sess_check", "pydef": "c10_pydef_check"}
 COQ_SHOW = {"collect": "c10_collect_show", "df": "c10_df_show", "extract": "c10_extract_show", "width": "c10_width_show",
-            "dfseq": "c10_dfseq_show", "sess": "c10_sess_show"}
+            "dfseq": "c10_dfseq_show", "sess": "c10_sess_show", "pydef": "c10_pydef_show"}
 RULE = ("collect_cython: exhaustive over rectangular row lists up to 3x3 (distinct cell labels) x index vectors of length 0..3 over -2..width+1 x limits -2..rows+2 "
         "(quick: up to 2x2 in full, 3x3 with vectors of length <= 2), then random larger shapes with repeated indexes, all three column-count paths, mixed cell types, "
         "ragged and non-tuple rows, DataFrame.collect with names/ints/limits, sequences of calls on ONE DataFrame whose rows arrive in a list / tuple / deque / generator / iterator "
         "(exhaustive: every sequence of 1..2 calls (thorough 1..3) from a palette of limited and unlimited collects, df[...], rowcount, materialize, append, followed by a "
         "collect + rowcount probe; random: 1..6 calls on larger frames, the caller overwriting returned arrays in place), numeric extremes of DataFrame.collect (indexes offset by "
         "+-2**31, +-2**32, 2**33, 3*2**32, 2**40, +-2**63, +-2**64 from -1..width, limits around 2**31..2**64; enumerated), sessions over several row classes (tuples-only / "
-        "ordinary) and frames with equal, permuted and overlapping field names in one process (enumerated creation orders x probe actions, and random), arbitrary dictionaries and field tuples (colliding keys 1/1.0/True, unhashable fields), "
+        "ordinary) and frames with equal, permuted and overlapping field names in one process (enumerated creation orders x probe actions, and random), the plain-Python "
+        "definition extract_columns beside the compiled collector (every index vector of length 0..3 over -4..3 on 2x3 tuple rows, every ordered pair of equal-but-distinct / "
+        "non-position / unhashable requested columns on tuple and dictionary rows, random dict / ragged / None rows), DataFrame.collect with column entries that are not "
+        "an int and not a name (floats, numpy scalars, Decimal, Fraction, bytes, None, bool, int subclass; enumerated), frames without columns, dict / tuple / ndarray subclass "
+        "instances, arbitrary dictionaries and field tuples (colliding keys 1/1.0/True, unhashable fields), "
         "object/str/numeric/2-D arrays for calculate_data_width (incl. through DataFrame.collect as display.py calls it), and malformed arguments; a case is non-trivial "
         "when the helper returned at least one cell / field / a width above the floor, or raised for an out-of-range index; distinct by canonical JSON")
 TRUSTED = [
@@ -86,6 +97,8 @@ TRUSTED = [
     "session model (Section Session): objects in creation order; Row.create_class builds an independent class each time; Row.__new__ = extract over the class's own fields "
     "for a dict (tuple's own constructor - the dict's keys - for a tuples-only class), the same cells for a tuple/list; DataFrame.append uses the frame's own ordinary class; "
     "numpy.array(indexes, dtype=int32) and the C-int conversion of limit raise OverflowError outside their ranges",
+    "extract_columns model (Section PyDef): Python subscription of tuples / lists (ints and bools, wrap-around of negative positions), dicts (hashable keys up to Python "
+    "equality, interned by the harness) and None; which objects count as a sequence position (__index__) or are hashable is decided by the harness",
     "modelled, not verified: the generated C and CPython object layout; str() of cell values and dict key hashing/equality are supplied by the harness; argument conversion "
     "(memoryview dtype/ndim test, C int conversion of limit) is checked by oracle and exit status only",
     "the sacrificial-process harness: a death of the child is observed as its wait status; silent memory corruption that neither changes a result nor kills the child is invisible",
@@ -114,6 +127,19 @@ class _TupleSub(tuple):
     __slots__ = ()
 
 
+class _IntSub(int):
+    __slots__ = ()
+
+
+def _array_sub():
+    import numpy
+
+    class _ArraySub(numpy.ndarray):
+        pass
+
+    return _ArraySub
+
+
 def build(v):
     t = v[0]
     if t == "i":
@@ -138,6 +164,40 @@ def build(v):
         return {build(k): build(x) for k, x in v[1]}
     if t == "big":
         return 10 ** int(v[1])
+    if t == "dec":
+        import decimal
+
+        return decimal.Decimal(v[1])
+    if t == "frac":
+        import fractions
+
+        return fractions.Fraction(int(v[1]), int(v[2]))
+    if t == "npf":
+        import numpy
+
+        return numpy.dtype(v[1]).type(float.fromhex(v[2]))
+    if t == "npi":
+        import numpy
+
+        return numpy.dtype(v[1]).type(int(v[2]))
+    if t == "npb":
+        import numpy
+
+        return numpy.bool_(bool(v[1]))
+    if t == "isub":
+        return _IntSub(int(v[1]))
+    if t == "cx":
+        return complex(float(v[1]), float(v[2]))
+    if t == "D":
+        import collections
+
+        return collections.OrderedDict((build(k), build(x)) for k, x in v[1])
+    if t == "DD":
+        import collections
+
+        return collections.defaultdict(int, [(build(k), build(x)) for k, x in v[1]])
+    if t == "AS":
+        return build(["A"] + list(v[1:])).view(_array_sub())
     if t == "A":
         import numpy
 
@@ -178,6 +238,26 @@ def _cells(r):
     return {"ok": {"shape": list(r.shape), "cells": [[canon(x) for x in col] for col in r]}}
 
 
+def _col_obj(c):
+    """A column entry of a collect request as the Python object handed to DataFrame.collect."""
+    return build(c["v"]) if isinstance(c, dict) else c
+
+
+def _cols_arg(cols):
+    return [_col_obj(c) for c in cols] if isinstance(cols, list) else _col_obj(cols)
+
+
+def _col_kind(c, names):
+    """('int', n) for an int (bool and int subclasses included: DataFrame.collect tests isinstance(c, int)), ('name', position)
+    for a name of the schema, ('unknown',) for everything else (tuple.index raises ValueError)."""
+    o = _col_obj(c)
+    if isinstance(o, int):
+        return ("int", int(o))
+    if isinstance(o, str) and o in names:
+        return ("name", list(names).index(o))
+    return ("unknown",)
+
+
 def _make_backing(kind, rows):
     """The container the frame's rows are handed over in (rows is a list)."""
     if kind == "list":
@@ -201,7 +281,7 @@ def _run_step(df, names, op):
     try:
         if o in ("collect", "getitem"):
             cols = op["cols"]
-            arg = list(cols) if isinstance(cols, list) else cols
+            arg = _cols_arg(cols)
             if o == "collect":
                 kw = {"limit": build(op["limit"])} if "limit" in op else {}
                 r = df.collect(arg, **kw)
@@ -228,8 +308,7 @@ def _run_step(df, names, op):
     except BaseException as e:
         return {"exc": type(e).__name__}
     # a collect returned: was every read it made inside its row object?  (judged on the rows the frame holds NOW)
-    idx = [c if isinstance(c, int) else names.index(c) for c in (cols if isinstance(cols, list) else [cols])
-           if isinstance(c, int) or c in names]
+    idx = [kd[1] for kd in (_col_kind(c, names) for c in (cols if isinstance(cols, list) else [cols])) if kd[0] != "unknown"]
     held = getattr(df, "_rows", None)
     if isinstance(held, list) and _unchecked(held, idx, r.shape[-1] if r.ndim else 0):
         return {"returned_without_raising": True, "shape": list(r.shape)}
@@ -282,10 +361,10 @@ def _run_case(case):
             kw = {}
             if "limit" in case:
                 kw["limit"] = build(case["limit"])
-            r = df.collect(list(cols) if isinstance(cols, list) else cols, **kw)
+            r = df.collect(_cols_arg(cols), **kw)
             _LEAK.append(r)
             names = list(case["names"])
-            idx = [c if isinstance(c, int) else names.index(c) for c in (cols if isinstance(cols, list) else [cols])]
+            idx = [kd[1] for kd in (_col_kind(c, names) for c in (cols if isinstance(cols, list) else [cols])) if kd[0] != "unknown"]
             if _unchecked(rows, idx, r.shape[-1]):
                 unchecked = list(r.shape)
         elif k == "dfseq":
@@ -308,6 +387,25 @@ def _run_case(case):
             if case["backing"] in ("list", "tuple", "deque"):  # what the caller's own container holds afterwards
                 source = [[canon(x) for x in row] if isinstance(row, tuple) else canon(row) for row in src]
             return {"ok": {"steps": steps, "source": source}}
+        elif k == "pydef":
+            from orso.row import extract_columns
+
+            rows, cols = build(case["rows"]), build(case["cols"])
+            native = None
+            if _pydef_native_ok(case):   # rectangular tuple rows, int32-representable ints: the compiled call is bounds-checked
+                try:
+                    nr = compiled.collect_cython(list(rows), numpy.array([int(c) for c in cols], dtype=numpy.int32))
+                    native = _cells(nr)
+                except BaseException as e:
+                    native = {"exc": type(e).__name__}
+            try:
+                r = extract_columns(rows, cols)
+                out = {"ok": {"type": type(r).__name__, "inner": sorted({type(c).__name__ for c in r}), "cells": [[canon(x) for x in c] for c in r]}}
+            except BaseException as e:
+                out = {"exc": type(e).__name__}
+            if native is not None:
+                out["native"] = native
+            return out
         elif k == "sess":
             from orso.dataframe import DataFrame
             from orso.row import Row
@@ -611,9 +709,10 @@ def _collect_view(case):
             return None
         cols = cols if isinstance(cols, list) else [cols]
         names = list(case["names"])
-        if not all((isinstance(c, str) and c in names) or type(c) is int for c in cols):
+        kinds = [_col_kind(c, names) for c in cols]
+        if any(kd[0] == "unknown" for kd in kinds):
             return None  # (round 3: an int outside the int32 range is inside the model - df_collect_conv raises OverflowError)
-        cols = [names.index(c) if isinstance(c, str) else c for c in cols]  # name -> position (the harness resolves names)
+        cols = [kd[1] for kd in kinds]  # name -> position (the harness resolves names); bool / int subclass -> its int value
         if "limit" in case and case["limit"][0] not in ("i", "n"):
             return None
         lim = -1
@@ -640,6 +739,8 @@ def _mode(case):
         return "safe" if ok else "iso"
     if k == "sess":
         return "iso"
+    if k == "pydef":
+        return "safe"
     if k == "extract":
         return "safe" if case["data"][0] == "d" and case["fields"][0] == "t" else "iso"
     if k == "width":
@@ -843,6 +944,8 @@ def oracle(case, obs):
         return _oracle_dfseq(case, obs)
     if k == "sess":
         return _oracle_sess(case, obs)
+    if k == "pydef":
+        return _oracle_pydef(case, obs)
     if k == "extract":
         data, fields = build(case["data"]), build(case["fields"])
         try:
@@ -854,6 +957,8 @@ def oracle(case, obs):
                 return "malformed argument (not a dict / not a tuple / unhashable field): a Python exception is required, returned %s" % json.dumps(obs["ok"])[:200]
             return None
         if "exc" in obs:
+            if type(data) is not dict or type(fields) is not tuple:
+                return None  # a dict / tuple SUBCLASS instance: the helper takes exact types; refusing it with an exception is fine, a wrong value is not
             return "well-formed call raised %s; expected %s" % (obs["exc"], want)
         if obs["ok"]["items"] != want or obs["ok"]["type"] != "tuple":
             return "must return the tuple of the dictionary's value or None for each field in order: expected %s, got %s" % (want, obs["ok"])
@@ -901,9 +1006,12 @@ def _oracle_df(case, obs):
     try:
         idx = []
         for c in ([cols] if single else cols):
-            if isinstance(c, bool) or not isinstance(c, (int, str)):
+            c = _col_obj(c)
+            # a position is an int - bool and int subclasses included, exactly as rows[j][True] is rows[j][1] in the plain definition -
+            # or a name of the schema; anything else (1.0, -0.5, Decimal, bytes, None, numpy scalars ...) is neither and must be refused
+            if not isinstance(c, (int, str)):
                 raise TypeError
-            idx.append(c if isinstance(c, int) else names.index(c))
+            idx.append(int(c) if isinstance(c, int) else names.index(c))
         lim = build(case["limit"]) if "limit" in case else None
         if lim is not None and (type(lim) is not int or lim > INT_MAX):
             raise TypeError
@@ -940,12 +1048,57 @@ def _op_text(op):
         lim = ""
         if "limit" in op:
             lim = ", limit=%s" % ("None" if op["limit"][0] == "n" else repr(build(op["limit"])))
-        return "collect(%r%s)%s" % (op["cols"], lim, " [caller then overwrites the returned array in place]" if op.get("scribble") else "")
+        return "collect(%r%s)%s" % (_cols_arg(op["cols"]), lim, " [caller then overwrites the returned array in place]" if op.get("scribble") else "")
     if o == "getitem":
-        return "df[%r]%s" % (op["cols"], " [caller then overwrites the returned array in place]" if op.get("scribble") else "")
+        return "df[%r]%s" % (_cols_arg(op["cols"]), " [caller then overwrites the returned array in place]" if op.get("scribble") else "")
     if o == "append":
         return "append(%r)" % (build(op["entry"]),)
     return {"rowcount": "rowcount", "len": "len(df)", "shape": "shape", "materialize": "materialize()"}.get(o, o)
+
+
+def _pydef_native_ok(case):
+    """The compiled collector may be called beside the plain-Python function: the rows are tuples of one width in a list / tuple,
+    the requested columns exact ints or bools that an int32 vector can hold."""
+    rows, cols = case["rows"], case["cols"]
+    if rows[0] not in ("l", "t") or cols[0] not in ("l", "t"):
+        return False
+    if not all(r[0] in ("t", "T") for r in rows[1]) or len({len(r[1]) for r in rows[1]}) > 1:
+        return False
+    return all((c[0] == "i" and INT_MIN <= c[1] <= INT_MAX) or c[0] == "b" for c in cols[1])
+
+
+def _oracle_pydef(case, obs):
+    """orso.row.extract_columns is the plain-Python definition: a tuple with one list per REQUESTED column (by position in the request),
+    list i = [row[columns[i]] for row in rows] - Python subscription, so what raises there must raise here.  And the compiled
+    collector, on the inputs it accepts (every index in 0..width-1), must return exactly what this function returns."""
+    rows, cols = build(case["rows"]), build(case["cols"])
+    try:
+        want = [[canon(row[c]) for row in rows] for c in cols]
+    except Exception as e:
+        if "exc" not in obs:
+            return "the definition [row[c] for row in rows] raises %s for some requested column: extract_columns must raise, it returned %s" % (type(e).__name__, json.dumps(obs["ok"]["cells"])[:200])
+        want = None
+    if want is not None:
+        if "exc" in obs:
+            return "extract_columns raised %s; the definition gives %s" % (obs["exc"], want)
+        got = obs["ok"]
+        if got["cells"] != want:
+            return ("extract_columns must return one list per requested column, list i = [row[columns[i]] for row in rows] (%d requested): expected %s, got %s"
+                    % (len(want), want, got["cells"]))
+        if got["type"] != "tuple" or got["inner"] not in ([], ["list"]):
+            return "extract_columns must return a tuple of lists, got a %s of %s" % (got["type"], got["inner"])
+    nat = obs.get("native")
+    if nat is not None and len(rows) > 0 and len(cols) > 0:
+        w = len(rows[0])
+        if all(0 <= int(c) < w for c in cols):
+            if "exc" in nat:
+                return "collect_cython raised %s on rectangular tuple rows with every index inside 0..width-1" % nat["exc"]
+            if want is not None and nat["ok"]["cells"] != want:
+                return ("the compiled collector must return exactly what its plain-Python definition returns: collect_cython gave %s, extract_columns / the definition give %s"
+                        % (nat["ok"]["cells"], want))
+        elif "exc" not in nat:
+            return "collect_cython must raise for an index outside 0..width-1, returned %s" % json.dumps(nat["ok"])[:200]
+    return None
 
 
 def _dict_row(entry, names):
@@ -999,7 +1152,7 @@ class _FrameOracle:
         elif o == "append":
             if "none" in st:  # accepted: from now on the entry is the frame's last row (a refused append changes nothing)
                 e = op["entry"]
-                self.cur.append(_dict_row(e, self.names) if e[0] == "d" else ["t", list(e[1])])
+                self.cur.append(_dict_row(e, self.names) if e[0] in ("d", "D", "DD") else ["t", list(e[1])])
         else:
             return "unknown call " + o
         return None
@@ -1066,9 +1219,9 @@ def _oracle_sess(case, obs):
         ctx = "in one process: %s; then %s: " % ("; ".join(txt[:-1]), txt[-1])
         if "make" in op:
             data = op["make"]
-            if data[0] == "d" and b:
+            if data[0] in ("d", "D", "DD") and b:
                 continue  # a dict handed to a tuples-only class: outside the property
-            if data[0] == "d":
+            if data[0] in ("d", "D", "DD"):
                 want = [canon(build(x)) for x in _dict_row(data, a)[1]]
                 what = "the dictionary's value or None for each field %r in order" % (tuple(a),)
             elif data[0] in ("t", "l", "T"):
@@ -1097,7 +1250,7 @@ def _coq_obs(obs, table):
     if "inspect_exc" in obs:
         return "OOtherExc"
     if "exc" in obs:
-        return {"IndexError": "OIndexError", "TypeError": "OTypeError", "OverflowError": "OOverflowError"}.get(obs["exc"], "OOtherExc")
+        return {"IndexError": "OIndexError", "TypeError": "OTypeError", "OverflowError": "OOverflowError", "KeyError": "OKeyError"}.get(obs["exc"], "OOtherExc")
     fresh = {}
 
     def ident(c):
@@ -1152,8 +1305,10 @@ def to_coq(case, obs):
         return _to_coq_dfseq(case, obs)
     if k == "sess":
         return _to_coq_sess(case, obs)
+    if k == "pydef":
+        return _to_coq_pydef(case, obs)
     if k == "extract":
-        if "ok" not in obs or case["fields"][0] != "t" or case["data"][0] not in ("d", "n"):
+        if "ok" not in obs or case["fields"][0] not in ("t", "T") or case["data"][0] not in ("d", "n", "D", "DD"):
             return None
         keys, vals = {}, {}
 
@@ -1174,7 +1329,7 @@ def to_coq(case, obs):
         got = L.lst(vid(c) for c in obs["ok"]["items"])
         return ("extract", "((%s : option (list (Z * option Z))), (%s : list (@field Z)), (%s : list (option Z)))" % (cdata, L.lst(fl), got))
     if k == "width":
-        if "ok" not in obs or case["arr"][0] != "A":
+        if "ok" not in obs or case["arr"][0] not in ("A", "AS"):
             return None
         arr = build(case["arr"])
         items = []
@@ -1192,14 +1347,15 @@ def _coq_fop(op, names, table):
     o = op["op"]
     if o in ("collect", "getitem"):
         cols = op["cols"] if isinstance(op["cols"], list) else [op["cols"]]
-        if not all(isinstance(c, str) or type(c) is int for c in cols):
-            return None
+        if not isinstance(op["cols"], list) and isinstance(_col_obj(op["cols"]), (list, tuple, set)):
+            return None  # a sequence in the place of one column is a list of columns to DataFrame.collect: not generated
         lim = op.get("limit", ["n"]) if o == "collect" else ["n"]
         if lim[0] not in ("i", "n"):
             return None
-        if any(isinstance(c, str) and c not in names for c in cols):
-            return "OpCollectUnknown"  # tuple.index raises ValueError after the frame was materialised
-        ccols = "(%s : list Z)" % L.lst(L.Z(names.index(c) if isinstance(c, str) else c) for c in cols)
+        kinds = [_col_kind(c, names) for c in cols]
+        if any(kd[0] == "unknown" for kd in kinds):
+            return "OpCollectUnknown"  # neither an int nor a name of the schema: tuple.index raises ValueError after the frame was materialised
+        ccols = "(%s : list Z)" % L.lst(L.Z(kd[1]) for kd in kinds)
         if o == "getitem":
             return "(OpGetitem %s)" % ccols
         return "(OpCollect %s %s)" % (ccols, "(None : option Z)" if lim[0] == "n" else L.opt(L.Z(lim[1])))
@@ -1253,6 +1409,54 @@ def _to_coq_dfseq(case, obs):
     return ("dfseq", "(%s, %s, (%s : list (fop Z)), (%s : list fobs))" % (_COQ_BACKING[case["backing"]], crows, L.lst(cops), L.lst(cobs)))
 
 
+def _to_coq_pydef(case, obs):
+    """(rows, requested columns, observed, compiled call beside it) - None when a row is something the model has no constructor for
+    (a str / int row ...).  Keys are interned through a Python dict (so 1 / True / 1.0 share an id), cells by type name + repr."""
+    if case["rows"][0] not in ("l", "t") or case["cols"][0] not in ("l", "t") or ("ok" not in obs and "exc" not in obs):
+        return None
+    keys, table = {}, {}
+
+    def cell(x):
+        return L.Z(table.setdefault(canon(x), len(table)))
+
+    crows = []
+    for r in case["rows"][1]:
+        if r[0] in ("t", "T", "l"):
+            crows.append("(PTuple (%s : list Z))" % L.lst(cell(build(x)) for x in r[1]))
+        elif r[0] in ("d", "D", "DD"):
+            try:
+                d = build(r)
+            except TypeError:
+                return None
+            if r[0] == "DD":
+                return None  # a defaultdict row creates its missing keys: not the model's dict
+            crows.append("(PDict (%s : list (Z * Z)))" % L.lst("(%s, %s)" % (L.Z(keys.setdefault(kk, len(keys))), cell(vv)) for kk, vv in d.items()))
+        elif r[0] == "n":
+            crows.append("PNone")
+        else:
+            return None
+    ccols = []
+    for c in build(case["cols"]):
+        idx = "None"
+        if isinstance(c, int) or type(c).__module__ == "numpy" and hasattr(c, "__index__") and not isinstance(c, (float, complex)):
+            try:
+                idx = "(Some %s)" % L.Z(int(c.__index__()))
+            except Exception:
+                idx = "None"
+        try:
+            key = "(Some %s)" % L.Z(keys.setdefault(c, len(keys)))
+        except TypeError:
+            key = "None"
+        ccols.append("(PCol %s %s)" % (idx, key))
+    nat = obs.get("native")
+    if nat is None:
+        cnat = "None"
+    else:
+        cnat = "(Some ((%s : list Z), %s))" % (L.lst(L.Z(int(c)) for c in build(case["cols"])), _coq_obs(nat, table))
+    return ("pydef", "((%s : list (prow Z Z)), (%s : list (pcol Z)), %s, (%s : option (list Z * obs)))"
+            % (L.lst(crows), L.lst(ccols), _coq_obs(obs, table), cnat))
+
+
 def _coq_dict(entry, table):
     """[(key id, value id)..] in the dictionary's own order, or None when two keys that differ as text are equal in Python
     (1 / 1.0 / True): the model compares interned ids."""
@@ -1290,7 +1494,7 @@ def _to_coq_sess(case, obs):
             cops.append("(NewFrame %s %s %s)" % (_COQ_BACKING[op["backing"]], cnames, _coq_rows(op["rows"][1], table)))
         elif "make" in op:
             data = op["make"]
-            if data[0] == "d":
+            if data[0] in ("d", "D", "DD"):
                 cd = _coq_dict(data, table)
                 if cd is None:
                     return None
@@ -1302,7 +1506,7 @@ def _to_coq_sess(case, obs):
         else:
             names = kinds[op["on"]][1]
             fop = op["op"]
-            if fop["op"] == "append" and fop["entry"][0] == "d":
+            if fop["op"] == "append" and fop["entry"][0] in ("d", "D", "DD"):
                 cd = _coq_dict(fop["entry"], table)
                 if cd is None:
                     return None
@@ -1341,6 +1545,8 @@ def nontrivial_key(case, obs):
         if k == "width" and o["value"] > 4:
             return json.dumps(case, sort_keys=True)
         if k == "width_df" and any(x > 4 for x in o["value"]):
+            return json.dumps(case, sort_keys=True)
+        if k == "pydef" and any(o["cells"]):
             return json.dumps(case, sort_keys=True)
         if k in ("dfseq", "sess") and any(any(st.get("cells") or []) or st.get("row") for st in o["steps"]):
             return json.dumps(case, sort_keys=True)
@@ -1387,6 +1593,8 @@ def classify(case, obs):
         elif len({_row_kind(r)[1] for r in rows}) > 1:
             yield "ragged"
     elif k == "dfseq":
+        if any(isinstance(c, dict) for op in case["ops"] if "cols" in op for c in (op["cols"] if isinstance(op["cols"], list) else [op["cols"]])):
+            yield "column-entry-not-int-not-str"
         yield "backing:" + case["backing"]
         ops = [op["op"] for op in case["ops"]]
         yield "calls=%s" % (len(ops) if len(ops) <= 4 else "5+")
@@ -1405,6 +1613,23 @@ def classify(case, obs):
             for st in obs["ok"]["steps"]:
                 if "exc" in st:
                     yield "step-exc:" + st["exc"]
+    elif k == "pydef":
+        cols = case["cols"][1] if case["cols"][0] in ("l", "t") else []
+        txt = [json.dumps(c, sort_keys=True) for c in cols]
+        if len(set(txt)) < len(txt):
+            yield "repeated-column"
+        try:
+            objs = [build(c) for c in cols]
+            if any(objs[i] == objs[j] and txt[i] != txt[j] for i in range(len(objs)) for j in range(i)):
+                yield "equal-but-distinct-columns"
+        except Exception:
+            pass
+        if any(c[0] == "i" and c[1] < 0 for c in cols):
+            yield "negative-position"
+        kinds = sorted({r[0] for r in case["rows"][1]}) if case["rows"][0] in ("l", "t") else ["?"]
+        yield "rows:" + "+".join(kinds)
+        if "native" in obs:
+            yield "compiled-call-beside"
     elif k == "sess":
         news = [op for op in case["ops"] if "new" in op]
         yield "objects=%d" % len(news)
@@ -1501,6 +1726,89 @@ def _exhaustive_extremes():
                "ops": [{"op": "collect", "cols": [1, 2 ** 32], "limit": ["i", 1]}, {"op": "collect", "cols": "b", "limit": ["i", lim]}, {"op": "collect", "cols": [1, 0]}, {"op": "rowcount"}]}
 
 
+# objects that are neither an int nor a column name, or that are equal to an int without being one (round 4)
+_ODD_COLS = [["b", True], ["b", False], ["isub", 1], ["isub", 3], ["isub", -1],
+             ["f", (-0.5).hex()], ["f", (-0.999).hex()], ["f", (0.5).hex()], ["f", (1.0).hex()], ["f", (1.9).hex()], ["f", (2.999).hex()],
+             ["f", (0.0).hex()], ["f", (-0.0).hex()], ["f", float("nan").hex()], ["f", float("inf").hex()],
+             ["npf", "float64", (0.7).hex()], ["npf", "float32", (-0.25).hex()], ["npf", "float64", (1.0).hex()],
+             ["npi", "int64", 1], ["npi", "int32", 0], ["npi", "uint8", 2], ["npb", True],
+             ["dec", "1.5"], ["dec", "1"], ["frac", 5, 2], ["frac", 1, 1], ["cx", 1, 0],
+             ["y", "31"], ["y", ""], ["n"], ["s", "1"], ["s", ""], ["s", "A"], ["s", "a "]]
+
+
+def _exhaustive_odd_columns():
+    """DataFrame.collect on ONE list-backed frame of 2 rows x 3 columns (a, b, c) with every odd object above as the single column, as
+    [v], [0, v] and [v, 'b'], with and without limit=1, each followed by an ordinary collect and the row count; plus zero-column frames."""
+    for v in _ODD_COLS:
+        for cols in ({"v": v}, [{"v": v}], [0, {"v": v}], [{"v": v}, "b"]):
+            for lim in (None, ["i", 1]):
+                op = {"op": "collect", "cols": cols}
+                if lim is not None:
+                    op["limit"] = lim
+                yield {"k": "dfseq", "backing": "list", "rows": _rect(2, 3), "names": ["a", "b", "c"],
+                       "ops": [op, {"op": "collect", "cols": [2, "a"]}, {"op": "rowcount"}]}
+    for r in (0, 1, 2):   # frames without columns
+        for cols in ([], [0], 0, [-1], "a"):
+            yield {"k": "dfseq", "backing": "list", "rows": _rect(r, 0), "names": [], "ops": [{"op": "collect", "cols": cols}, {"op": "shape"}]}
+        yield {"k": "df", "rows": _rect(r, 0), "names": [], "cols": []}
+
+
+# requested columns for the plain-Python definition: equal-but-distinct objects, non-positions, unhashables
+_PY_KEYS = [["i", 0], ["b", False], ["f", (0.0).hex()], ["f", (-0.0).hex()], ["i", 1], ["b", True], ["f", (1.0).hex()], ["dec", "1"], ["npi", "int64", 1],
+            ["isub", 1], ["s", "1"], ["s", "a"], ["n"], ["l", [["i", 0]]], ["i", -1], ["i", 2]]
+
+
+def _exhaustive_pydef(tier):
+    """extract_columns on tuple rows: 2 rows x 3 columns with every index vector of length 0..3 over -4..3 (repeats, negatives that wrap, out of
+    range), 0 / 1 rows with vectors of length 0..2; every ordered pair of requested columns from the key pool (0 / False / 0.0 / -0.0, 1 / True / 1.0 /
+    Decimal(1) / numpy.int64(1) / int subclass, '1', 'a', None, a list, -1, 2) on tuple rows and on dictionary rows."""
+    for r, maxlen in ((2, 3), (0, 2), (1, 2)):
+        for ln in range(0, maxlen + 1):
+            for vec in itertools.product(range(-4, 4), repeat=ln):
+                yield {"k": "pydef", "rows": _rect(r, 3), "cols": ["l", [["i", c] for c in vec]]}
+    drows = ["l", [["d", [[["i", 0], ["i", 100 * j]], [["i", 1], ["i", 100 * j + 1]], [["s", "1"], ["i", 100 * j + 2]], [["s", "a"], ["i", 100 * j + 3]], [["n"], ["i", 100 * j + 4]]]]
+                   for j in (1, 2)]]
+    for x in _PY_KEYS:
+        for y in _PY_KEYS:
+            yield {"k": "pydef", "rows": _rect(2, 3), "cols": ["l", [x, y]]}
+            yield {"k": "pydef", "rows": drows, "cols": ["l", [x, y]]}
+
+
+def _rand_pydef(rng):
+    style = rng.random()
+    ncols = rng.choice([0, 1, 2, 2, 3, 3, 4, 6])
+    if style < 0.45:   # tuple / list rows (sometimes ragged, sometimes a None row), int-like columns with repeats
+        r, w = rng.choice([0, 1, 2, 3, 5]), rng.choice([1, 2, 3, 4])
+        rows = _rand_rows(rng, r, w, distinct=rng.random() < 0.5)
+        q = rng.random()
+        if q < 0.15 and r:
+            j = rng.randrange(r)
+            rows[j] = ["t", rows[j][1][: rng.randrange(0, w + 1)]]
+        elif q < 0.22 and r:
+            rows[rng.randrange(r)] = ["n"]
+        elif q < 0.35:
+            rows = [["l", x[1]] for x in rows]
+        pool = [["i", c] for c in range(-w - 1, w + 1)] + [["b", True], ["b", False], ["isub", 0], ["npi", "int64", 0], ["f", (1.0).hex()], ["s", "0"], ["n"]]
+        cols = [rng.choice(pool[: 2 * w + 2] if rng.random() < 0.8 else pool) for _ in range(ncols)]
+        if ncols > 1 and rng.random() < 0.5:
+            cols[rng.randrange(ncols)] = cols[0]
+        return {"k": "pydef", "rows": [rng.choice(["l", "l", "t"]), rows], "cols": [rng.choice(["l", "l", "t"]), cols]}
+    names = [["s", "id"], ["s", "name"], ["s", "Name"], ["s", "na\u0308me"], ["s", "n\u00e4me"], ["i", 1], ["b", True], ["f", (1.0).hex()], ["n"], ["s", ""], ["t", [["i", 1]]]]
+    r = rng.choice([0, 1, 2, 4])
+    keys = [k for k in names if rng.random() < 0.7]
+    rows = []
+    for j in range(r):
+        ks = list(keys)
+        if rng.random() < 0.2 and ks:
+            ks.pop(rng.randrange(len(ks)))   # a row that lacks one key
+        rng.shuffle(ks)
+        rows.append([rng.choice(["d", "d", "d", "D"]), [[k, ["i", 10 * j + i]] for i, k in enumerate(ks)]])
+    cols = [rng.choice(keys if keys and rng.random() < 0.85 else names + [["l", []], ["s", "zz"]]) for _ in range(ncols)]
+    if ncols > 1 and rng.random() < 0.5:
+        cols[rng.randrange(ncols)] = cols[0]
+    return {"k": "pydef", "rows": ["l", rows], "cols": ["l", cols]}
+
+
 _SESS_NAMES = {"ab": ["a", "b"], "ba": ["b", "a"]}
 
 
@@ -1548,6 +1856,10 @@ def exhaustive(tier):
             yield c
         for c in _exhaustive_extremes():
             yield c
+        for c in _exhaustive_odd_columns():
+            yield c
+        for c in _exhaustive_pydef(tier):
+            yield c
         for c in _exhaustive_sess(tier):
             yield c
         for r in range(0, 4):
@@ -1569,6 +1881,12 @@ def exhaustive(tier):
               "followed by the probe collect + rowcount" % (3 if tier == "thorough" else 2))
     label += ("; numeric extremes: DataFrame.collect with index offset + k for offsets +-2**31, +-2**32, 2**33, 3*2**32, 2**40, +-2**63, +-2**64 and k in -1..width "
               "(single / [i] / [0, i] / [i, 0, 0]; widths 1..3) and limits around 2**31, 2**32, 2**63, 2**64")
+    label += ("; odd column entries: DataFrame.collect with each of %d objects that are not an int and not a name, or equal an int without being one (True, False, int "
+              "subclass, -0.5, 0.5, 1.0, 1.9, 2.999, +-0.0, nan, inf, numpy floats / ints / bool, Decimal, Fraction, complex, bytes, None, digit and near-miss strings) as the "
+              "single column, [v], [0, v], [v, name], with and without a limit, followed by an ordinary collect; frames without columns" % len(_ODD_COLS))
+    label += ("; the plain-Python definition extract_columns: tuple rows 2x3 x every index vector of length 0..3 over -4..3 (0 and 1 rows: length 0..2), and every ordered "
+              "pair of requested columns from 0 / False / 0.0 / -0.0 / 1 / True / 1.0 / Decimal(1) / numpy.int64(1) / int subclass / '1' / 'a' / None / a list / -1 / 2 on tuple "
+              "rows and on dictionary rows, with the compiled collector called beside it where it accepts the input")
     label += ("; sessions: every sequence of 2..%d creations from {tuples-only row class (a,b), ordinary row class (a,b), ordinary row class (b,a), list-backed frame (a,b), "
               "tuple-backed frame (a,b), list-backed frame (b,a)} followed by probe actions on every object (dicts reordered / with a foreign key / with a missing field, a tuple; for frames "
               "append(dict), append(tuple), collect with the returned array overwritten, df[...], rowcount) in creation order and in reverse order" % (4 if tier == "thorough" else 3))
@@ -1693,7 +2011,7 @@ def _rand_fop(rng, r, w, names, pos):
     if q < 0.45:
         style = rng.random()
         if style < 0.25:
-            cols = rng.choice([rng.randrange(w), names[rng.randrange(w)], names[rng.randrange(w)], -1, w, "nope"])
+            cols = rng.choice([rng.randrange(w), names[rng.randrange(w)], names[rng.randrange(w)], -1, w, "nope", {"v": rng.choice(_ODD_COLS)}])
         else:
             cols = []
             for _ in range(rng.choice([0, 1, 1, 2, 2, 3, 5])):
@@ -1703,6 +2021,8 @@ def _rand_fop(rng, r, w, names, pos):
                 cols[rng.randrange(len(cols))] = rng.choice([-1, w, w + 3, "nope"])
             if cols and rng.random() < 0.06:   # far outside: congruent to a valid index modulo 2**32 / 2**64
                 cols[rng.randrange(len(cols))] = rng.choice(_OFFSETS) + rng.randrange(-1, w + 1)
+            if cols and rng.random() < 0.1:    # not an int and not a name / equal to an int without being one
+                cols[rng.randrange(len(cols))] = {"v": rng.choice(_ODD_COLS)}
         op = {"op": "collect", "cols": cols}
         if rng.random() < 0.7:
             op["limit"] = rng.choice([["n"], ["i", -1], ["i", -3], ["i", 0], ["i", 1], ["i", 1], ["i", 2], ["i", max(r - 1, 0)], ["i", r],
@@ -1739,7 +2059,7 @@ _SESS_POOL = ["a", "b", "c"]
 def _rand_dict(rng, pos):
     keys = [["s", x] for x in _SESS_POOL] + [["s", "zz"], ["s", "A"], ["n"], ["i", 7], ["s", ""]]
     rng.shuffle(keys)
-    return ["d", [[kk, rng.choice([["i", 9000 + 10 * pos + j], ["s", "v%d%d" % (pos, j)], ["n"], ["f", (1.5).hex()]])] for j, kk in enumerate(keys[: rng.randint(0, 5)])]]
+    return [rng.choice(["d", "d", "d", "D", "DD"]), [[kk, rng.choice([["i", 9000 + 10 * pos + j], ["s", "v%d%d" % (pos, j)], ["n"], ["f", (1.5).hex()]])] for j, kk in enumerate(keys[: rng.randint(0, 5)])]]
 
 
 def _rand_sess(rng):
@@ -1795,7 +2115,18 @@ def _rand_extract(rng):
             fields.append(rng.choice(_KEYS))
         else:
             fields.append(["l", [["i", 1]]])  # unhashable
-    return {"k": "extract", "data": ["d", items], "fields": ["t", fields]}
+    tag, ftag = "d", "t"
+    q = rng.random()
+    if q < 0.06:     # subclass instances: the helper takes exact types and may refuse them, it may not return something else
+        seen, uniq = set(), []
+        for kk, vv in items:
+            if json.dumps(kk) not in seen:
+                seen.add(json.dumps(kk))
+                uniq.append([kk, vv])
+        items, tag = uniq, rng.choice(["D", "DD"])
+    elif q < 0.1:
+        ftag = "T"
+    return {"k": "extract", "data": [tag, items], "fields": [ftag, fields]}
 
 
 def _rand_width(rng):
@@ -1805,7 +2136,7 @@ def _rand_width(rng):
         flat = [_rand_value(rng) for _ in range(n)]
         if rng.random() < 0.2:
             flat = [rng.choice([["n"], ["s", "ab"], ["i", 1], ["s", "abcd"], ["s", "abcde"], ["i", 1234], ["i", 12345]]) for _ in range(n)]
-        return {"k": "width", "arr": ["A", "object", [n], flat]}
+        return {"k": "width", "arr": ["AS" if rng.random() < 0.1 else "A", "object", [n], flat]}
     if q < 0.7:
         return {"k": "width", "arr": ["A", "float64", [n], [["f", rng.choice([0.5, 1e-9, 123456.75, float("nan"), -1e100]).hex()] for _ in range(n)]]}
     if q < 0.8:
@@ -1891,6 +2222,8 @@ def generate(rng, tier):
             yield _rand_dfseq(rng)
         if i % 8 == 0:  # ... and sessions over several row classes and frames in one process
             yield _rand_sess(rng)
+        if i % 4 == 1:  # ... and the plain-Python definition beside the compiled collector
+            yield _rand_pydef(rng)
 
 
 def corpus():
@@ -1911,6 +2244,11 @@ def corpus():
                "ops": [{"op": "collect", "cols": ["b", 0], "limit": ["i", 1]}, {"op": "collect", "cols": ["b", 0]}, {"op": "getitem", "cols": "a"}, {"op": "rowcount"}]}
     yield {"k": "dfseq", "backing": "tuple", "rows": ["l", [t12, t34]], "names": ["a", "b"],      # append refused while lazy, accepted once a list
            "ops": [{"op": "append", "entry": ["t", [["i", 7], ["i", 8]]]}, {"op": "len"}, {"op": "append", "entry": ["l", [["i", 9], ["i", 10]]]}, {"op": "getitem", "cols": ["b"]}]}
+    yield {"k": "pydef", "rows": ["l", [t12, t34]], "cols": ["l", [["i", 0], ["i", 0]]]}                                # a column requested twice
+    yield {"k": "pydef", "rows": ["l", [t12, t34]], "cols": ["l", [["i", 1], ["b", True]]]}                             # equal-but-distinct requests
+    yield {"k": "pydef", "rows": ["l", [["d", [[["s", "id"], ["i", 1]], [["s", "name"], ["s", "x"]]]]]], "cols": ["l", [["s", "id"], ["s", "name"], ["s", "id"]]]}
+    yield {"k": "dfseq", "backing": "list", "rows": ["l", [t12, t34]], "names": ["a", "b"],                             # a number that is not a position
+           "ops": [{"op": "collect", "cols": {"v": ["f", (-0.5).hex()]}}, {"op": "collect", "cols": [0, {"v": ["f", (1.9).hex()]}], "limit": ["i", 1]}, {"op": "collect", "cols": {"v": ["b", True]}}]}
     yield {"k": "df", "rows": ["l", [t12, t34]], "names": ["a", "b"], "cols": [2 ** 32 + 1]}                  # far outside, congruent to column 1 modulo 2**32
     yield {"k": "df", "rows": ["l", [t12, t34]], "names": ["a", "b"], "cols": [0, -2 ** 32], "limit": ["i", 1]}
     yield {"k": "sess", "ops": [{"new": "class", "fields": ["k1", "k2"], "tuples_only": True},                  # what from_arrow builds ...
@@ -1933,8 +2271,10 @@ def search(rng):
     i = 0
     while True:
         i += 1
-        m = i % 8
-        if m == 7:
+        m = i % 9
+        if m == 8:
+            yield _rand_pydef(rng)
+        elif m == 7:
             yield _rand_sess(rng)
         elif m == 6:
             yield _rand_dfseq(rng)
@@ -1972,6 +2312,17 @@ def shrink(case):
                             yield {"k": "seq", "cases": cs[:i] + cs[i + step:]}
         elif n == 1:
             yield cs[0]
+        return
+    if k == "pydef" and case["rows"][0] in ("l", "t") and case["cols"][0] in ("l", "t"):
+        rows, cols = case["rows"], case["cols"]
+        for i in range(len(rows[1])):
+            yield dict(case, rows=[rows[0], rows[1][:i] + rows[1][i + 1:]])
+        for i in range(len(cols[1])):
+            yield dict(case, cols=[cols[0], cols[1][:i] + cols[1][i + 1:]])
+        for i, r in enumerate(rows[1]):
+            if r[0] in ("t", "T", "l", "d", "D") and len(r[1]) > 1:
+                for j in range(len(r[1])):
+                    yield dict(case, rows=[rows[0], rows[1][:i] + [[r[0], r[1][:j] + r[1][j + 1:]]] + rows[1][i + 1:]])
         return
     if k == "sess":
         ops = case["ops"]
